@@ -1144,3 +1144,205 @@ Proof.
   - now apply (get_In ref_eqb ref_eqb_spec).
   - rewrite Hk. apply (eqb_refl gkey_eqb gkey_eqb_spec).
 Qed.
+
+(* ================================================================== *)
+(* File store                                                          *)
+(* ================================================================== *)
+Record file_inv (s : file_store) : Prop := mkFI {
+  fi_d2p : forall g p, get N.eqb g (f_d2p s) = Some p ->
+                       In p (f_names s) /\ exists c, get N.eqb p (f_disk s) = Some c /\ b_hash c = g;
+  fi_disk : forall p c, get N.eqb p (f_disk s) = Some c -> In p (f_names s);
+  fi_cas : forall k c, get gkey_eqb k (f_cas s) = Some c -> b_hash c = k_dig k }.
+
+Lemma file_inv_init : file_inv file_init.
+Proof. constructor; simpl; intros; discriminate. Qed.
+
+Lemma memN_In x l : mem N.eqb x l = true <-> In x l.
+Proof. apply (mem_In N.eqb Neqb_spec). Qed.
+
+Lemma verify_spec d c : verify d c = true -> b_hash c = d_dig d /\ b_len c = d_size d.
+Proof.
+  unfold verify. intro H. apply andb_true_iff in H as [A B]. apply N.eqb_eq in A, B. auto.
+Qed.
+
+Lemma file_inv_graph s g : file_inv s ->
+  file_inv (mkFile (f_names s) (f_d2p s) (f_disk s) (f_cas s) (f_res s) g).
+Proof. intros [A B C]. constructor; auto. Qed.
+
+(* the fetch that graph.Index performs right after a successful store cannot fail *)
+Lemma file_index_after_ok d s1 :
+  file_inv s1 -> name_ok d s1 = true ->
+  (get N.eqb (d_dig d) (f_d2p s1) <> None \/ get gkey_eqb (gk d) (f_cas s1) <> None) ->
+  exists c1, file_fetch d s1 = Some c1.
+Proof.
+  intros [A B C] Hn H. unfold file_fetch. rewrite Hn.
+  destruct (get N.eqb (d_dig d) (f_d2p s1)) as [p|] eqn:E.
+  - destruct (A _ _ E) as (_ & c & Hc & _). eauto.
+  - destruct H as [H|H]; [congruence|]. destruct (get gkey_eqb (gk d) (f_cas s1)); [eauto|congruence].
+Qed.
+
+Lemma file_step_inv ig ov s o : file_inv s -> file_inv (fst (file_step true ig ov s o)).
+Proof.
+  intros Hinv. pose proof Hinv as [A B C]. destruct o; cbn [file_step]; try exact Hinv.
+  - (* Push *)
+    destruct (d_name d =? 0) eqn:En.
+    + destruct ig; [exact Hinv|].
+      destruct (get gkey_eqb (gk d) (f_cas s)) eqn:Ec; [exact Hinv|].
+      destruct (verify d (limit_reader d c)) eqn:V; [|exact Hinv].
+      set (s1 := mkFile _ _ _ (put gkey_eqb (gk d) (limit_reader d c) (f_cas s)) _ _).
+      assert (H1 : file_inv s1).
+      { constructor; cbn [s1 f_names f_d2p f_disk f_cas]; auto. intros k c0.
+        destruct (gdec k (gk d)) as [->|Hne].
+        - rewrite (get_put_eq gkey_eqb gkey_eqb_spec). intro E. injection E as <-.
+          apply verify_spec in V as [V _]. exact V.
+        - rewrite (get_put_neq gkey_eqb gkey_eqb_spec) by exact Hne. apply C. }
+      destruct (file_fetch d s1); cbn [fst]; [now apply file_inv_graph | exact H1].
+    + destruct (mem N.eqb (d_name d) (f_names s)) eqn:Em; [exact Hinv|].
+      destruct (ov && is_some (get N.eqb (d_name d) (f_disk s))); [exact Hinv|].
+      assert (Hnot : ~ In (d_name d) (f_names s)).
+      { intro H. apply memN_In in H. congruence. }
+      destruct (verify d c) eqn:V.
+      * set (s1 := mkFile (d_name d :: f_names s) _ _ _ _ _).
+        assert (H1 : file_inv s1).
+        { constructor; cbn [s1 f_names f_d2p f_disk f_cas]; auto.
+          - intros g p. destruct (N.eq_dec g (d_dig d)) as [->|Hne].
+            + rewrite (get_put_eq N.eqb Neqb_spec). intro E. injection E as <-. split; [now left|].
+              exists c. rewrite (get_put_eq N.eqb Neqb_spec). split; auto. now apply verify_spec in V as [V _].
+            + rewrite (get_put_neq N.eqb Neqb_spec) by exact Hne. intro E.
+              destruct (A _ _ E) as (Hp & c0 & Hc0 & Hh). split; [now right|]. exists c0. split; auto.
+              rewrite (get_put_neq N.eqb Neqb_spec); auto. intro; subst. contradiction.
+          - intros p c0. destruct (N.eq_dec p (d_name d)) as [->|Hne]; [intros _; now left|].
+            rewrite (get_put_neq N.eqb Neqb_spec) by exact Hne. intro E. right. eapply B; eauto. }
+        destruct (file_fetch d s1); cbn [fst]; [now apply file_inv_graph | exact H1].
+      * cbn [fst]. constructor; cbn [f_names f_d2p f_disk f_cas]; auto.
+        -- intros g p E. destruct (A _ _ E) as (Hp & c0 & Hc0 & Hh). split; auto. exists c0. split; auto.
+           rewrite (get_del_neq N.eqb Neqb_spec); auto. intro; subst. contradiction.
+        -- intros p c0 E. destruct (N.eq_dec p (d_name d)) as [->|Hne].
+           ++ rewrite (get_del_eq N.eqb) in E. discriminate.
+           ++ rewrite (get_del_neq N.eqb Neqb_spec) in E by exact Hne. eapply B; eauto.
+  - destruct (file_fetch d s); exact Hinv.
+  - destruct r; try exact Hinv; (destruct (file_exists d s); [|exact Hinv]; cbn [fst]; constructor; auto).
+  - destruct r; try exact Hinv; destruct (get ref_eqb _ (r_index (f_res s))); exact Hinv.
+Qed.
+
+Lemma runf_cons {S} (step : S -> op -> S * fout) s o h :
+  runf step s (o :: h) =
+  (fst (runf step (fst (step s o)) h), snd (step s o) :: snd (runf step (fst (step s o)) h)).
+Proof. simpl. destruct (step s o) as [s1 x]. simpl. destruct (runf step s1 h). reflexivity. Qed.
+
+Lemma file_run_inv ig ov h : forall s, file_inv s -> file_inv (fst (runf (file_step true ig ov) s h)).
+Proof.
+  induction h as [|o h IH]; intros s H; [exact H|]. rewrite runf_cons. cbn [fst].
+  apply IH. now apply file_step_inv.
+Qed.
+
+(* no Fetch ever returns bytes that do not hash to the requested digest *)
+Lemma file_fetch_matches ig ov h d hash len :
+  let s := fst (runf (file_step true ig ov) file_init h) in
+  snd (file_step true ig ov s (Fetch d)) = FO (OBytes hash len) -> hash = d_dig d.
+Proof.
+  intros s. pose proof (file_run_inv ig ov h _ file_inv_init) as [A B C]. fold s in A, B, C.
+  cbn [file_step]. unfold file_fetch.
+  destruct (name_ok d s); [|discriminate].
+  destruct (get N.eqb (d_dig d) (f_d2p s)) as [p|] eqn:E.
+  - destruct (A _ _ E) as (_ & c & Hc & Hh). rewrite Hc. cbn [snd]. intro H. injection H as <- _. exact Hh.
+  - destruct (get gkey_eqb (gk d) (f_cas s)) as [c|] eqn:Ec; [|discriminate].
+    cbn [snd]. intro H. injection H as <- _. apply (C _ _ Ec).
+Qed.
+
+(* a refused or failed operation changes nothing (repaired code) *)
+Lemma file_failed_noop ig ov h o :
+  let s := fst (runf (file_step true ig ov) file_init h) in
+  fout_is_err (snd (file_step true ig ov s o)) = true -> fst (file_step true ig ov s o) = s.
+Proof.
+  intros s. pose proof (file_run_inv ig ov h _ file_inv_init) as Hinv. fold s in Hinv.
+  pose proof Hinv as [A B C]. destruct o; cbn [file_step]; try reflexivity.
+  - destruct (d_name d =? 0) eqn:En.
+    + destruct ig; [reflexivity|].
+      destruct (get gkey_eqb (gk d) (f_cas s)) eqn:Ec; [reflexivity|].
+      destruct (verify d (limit_reader d c)) eqn:V; [|reflexivity].
+      set (s1 := mkFile _ _ _ (put gkey_eqb (gk d) (limit_reader d c) (f_cas s)) _ _).
+      assert (H1 : file_inv s1).
+      { change s1 with (fst (s1, FO OOk)). 
+        pose proof (file_step_inv false ov s (Push d c) Hinv) as H. cbn [file_step] in H.
+        rewrite En, Ec, V in H. fold s1 in H. destruct (file_fetch d s1); cbn [fst] in *.
+        - destruct H as [A' B' C']. constructor; auto.
+        - exact H. }
+      destruct (file_index_after_ok d s1 H1) as (c1 & Hc1).
+      { unfold name_ok. now rewrite En. }
+      { right. cbn [s1 f_cas]. rewrite (get_put_eq gkey_eqb gkey_eqb_spec). discriminate. }
+      rewrite Hc1. discriminate.
+    + destruct (mem N.eqb (d_name d) (f_names s)) eqn:Em; [reflexivity|].
+      destruct (ov && is_some (get N.eqb (d_name d) (f_disk s))); [reflexivity|].
+      destruct (verify d c) eqn:V.
+      * set (s1 := mkFile (d_name d :: f_names s) _ _ _ _ _).
+        assert (H1 : file_inv s1).
+        { pose proof (file_step_inv ig ov s (Push d c) Hinv) as H. cbn [file_step] in H.
+          rewrite En, Em in H.
+          destruct (ov && is_some (get N.eqb (d_name d) (f_disk s))) eqn:Eo.
+          - (* cannot happen here, but the invariant does not need it *)
+            clear H. constructor; cbn [s1 f_names f_d2p f_disk f_cas]; auto.
+            + intros g p. destruct (N.eq_dec g (d_dig d)) as [->|Hne].
+              * rewrite (get_put_eq N.eqb Neqb_spec). intro E. injection E as <-. split; [now left|].
+                exists c. rewrite (get_put_eq N.eqb Neqb_spec). split; auto. now apply verify_spec in V as [V _].
+              * rewrite (get_put_neq N.eqb Neqb_spec) by exact Hne. intro E.
+                destruct (A _ _ E) as (Hp & c0 & Hc0 & Hh). split; [now right|]. exists c0. split; auto.
+                rewrite (get_put_neq N.eqb Neqb_spec); auto. intro; subst.
+                apply memN_In in Hp. congruence.
+            + intros p c0. destruct (N.eq_dec p (d_name d)) as [->|Hne]; [intros _; now left|].
+              rewrite (get_put_neq N.eqb Neqb_spec) by exact Hne. intro E. right. eapply B; eauto.
+          - rewrite V in H. fold s1 in H. destruct (file_fetch d s1); cbn [fst] in H.
+            + destruct H as [A' B' C']. constructor; auto.
+            + exact H. }
+        destruct (file_index_after_ok d s1 H1) as (c1 & Hc1).
+        { unfold name_ok. cbn [s1 f_names]. apply orb_true_iff. right. apply memN_In. now left. }
+        { left. cbn [s1 f_d2p]. rewrite (get_put_eq N.eqb Neqb_spec). discriminate. }
+        rewrite Hc1. discriminate.
+      * intros _. cbn [fst].
+        assert (Hd : get N.eqb (d_name d) (f_disk s) = None).
+        { destruct (get N.eqb (d_name d) (f_disk s)) as [c0|] eqn:E; auto.
+          apply B in E. apply memN_In in E. congruence. }
+        rewrite (del_absent N.eqb _ _ Hd). now destruct s.
+  - destruct (file_fetch d s); reflexivity.
+  - destruct r; try reflexivity; (destruct (file_exists d s); [discriminate|reflexivity]).
+  - destruct r; try reflexivity; destruct (get ref_eqb _ (r_index (f_res s))); reflexivity.
+Qed.
+
+(* a name is written once: pushing under an existing name is refused and changes nothing *)
+Lemma file_duplicate_name fx ig ov s d c :
+  d_name d <> 0 -> In (d_name d) (f_names s) ->
+  file_step fx ig ov s (Push d c) = (s, FE FDuplicateName).
+Proof.
+  intros Hn Hin. cbn [file_step]. apply N.eqb_neq in Hn. rewrite Hn.
+  apply memN_In in Hin. now rewrite Hin.
+Qed.
+
+(* ---------- witnesses: what the file store does not satisfy ---------- *)
+Definition w_named := mkDesc 6 1 5 8.          (* digest 1, 5 bytes, title = name 1 *)
+Definition w_unnamed := mkDesc 6 1 5 0.
+Definition w_good := mkBlob 1 5 [] 1 [].
+Definition w_bad := mkBlob 2 5 [] 2 [].
+Definition w_trailing := mkBlob 3 6 [] 1 [].   (* 6 bytes whose first 5 are the content of digest 1 *)
+
+(* the code as found: a failed push leaves its file behind and, with DisableOverwrite,
+   makes the later valid push of the same name fail *)
+Lemma file_failed_noop_prefix_witness :
+  snd (runf (file_step false false true) file_init [Push w_named w_bad; Push w_named w_good])
+    = [FO (OErr EMismatch); FE FOverwrite] /\
+  snd (runf (file_step false false true) file_init [Push w_named w_good]) = [FO OOk] /\
+  snd (runf (file_step true false true) file_init [Push w_named w_bad; Push w_named w_good])
+    = [FO (OErr EMismatch); FO OOk].
+Proof. vm_compute. auto. Qed.
+
+(* known: content present through a named file is accepted again when pushed unnamed *)
+Lemma file_push_present_witness :
+  let s := fst (runf (file_step true false false) file_init [Push w_named w_good]) in
+  file_exists w_unnamed s = true /\
+  snd (file_step true false false s (Push w_unnamed w_good)) = FO OOk.
+Proof. vm_compute. auto. Qed.
+
+(* known: the fallback storage cuts trailing data; Fetch returns fewer bytes than were pushed *)
+Lemma file_trailing_witness :
+  snd (runf (file_step true false false) file_init [Push w_unnamed w_trailing; Fetch w_unnamed])
+    = [FO OOk; FO (OBytes 1 5)] /\ b_len w_trailing = 6.
+Proof. vm_compute. auto. Qed.
